@@ -56,4 +56,10 @@ NOTES = {
   "note": "Format 0 has no writer in the code base: encSchema 0 is the reconstruction of the historic writer as the inverse of the reader's format-0 branches (trusted). Trait names must not contain '+' (the writer's separator) — part of well-formedness.",
   "technique": "Lean 4 theorems (mutual induction: codec round trip, reflexivity, completeness) + differential correspondence on schema bytes",
  },
+ "C12": {
+  "text": "schemaOf transcribes WithSchema (library impls, derive output, recursion guard) and is tied byte-for-byte to get_schema of every zoo type and version; schemaWire reads a schema as the grammar a generic reader follows. Lean theorem (mutual induction over type descriptors): for every type of the stated fragment whose recursion guards all miss, the schema read as a grammar equals the byte structure of what the writer emits; hence the generic reader parses everything save writes, completely, recovering the wire value, and the schema holds no recursion marker. Result, SocketAddr and the HashMap value guard are proved counter-examples and recorded findings. An independent schema-driven reader in the harness parses the real bytes of generated values with the real schemas, and is compared with the model's reader.",
+  "design_ref": "§6 C12",
+  "note": "guardsMiss (no guard hits its context) is evaluated per type by the model rather than proved from a key-length argument; TypeId is modelled by structural equality of descriptors (Vec<T>/Box<[T]> etc. distinguished by kind, Box/Rc/Arc not). Types outside frag (IndexSet, Duration, SystemTime: one-field wrappers) are compared by flattened byte structure in the correspondence only.",
+  "technique": "Lean 4 theorem (mutual induction: schema-as-grammar equals writer grammar) + differential correspondence incl. independent generic reader",
+ },
 }
